@@ -24,12 +24,45 @@ fn gen_term(r: &mut Rng, nb: usize, depth: usize) -> ST {
     match r.below(if depth > 0 { 8 } else { 7 }) {
         0..=3 => bnode(&format!("b{}", r.below(nb.max(1)))),
         4..=6 => gen_ground(r),
-        _ => triple(gen_term(r, nb, depth - 1), iri(&format!("http://e/{}", r.ps(&["p", "q"]))), gen_term(r, nb, depth - 1)),
+        // generalized RDF-star: the predicate of a quoted triple may be any term, in particular a blank node
+        _ => { let p = if r.chance(1, 3) { gen_term(r, nb, 0) } else { iri(&format!("http://e/{}", r.ps(&["p", "q"]))) }; triple(gen_term(r, nb, depth - 1), p, gen_term(r, nb, depth - 1)) }
+    }
+}
+/// number of ground atoms in a term (blank nodes are not ground)
+fn n_ground(t: &ST) -> usize { match t { SimpleTerm::BlankNode(_) => 0, SimpleTerm::Triple(tr) => tr.iter().map(n_ground).sum(), _ => 1 } }
+/// a minimally different ground atom: another language tag / datatype / lexical form / IRI / variable name
+fn near_ground(t: &ST, r: &mut Rng) -> ST {
+    match t {
+        SimpleTerm::LiteralLanguage(l, tag) => match r.below(3) { 0 => lit_lang(l, if tag.as_str().eq_ignore_ascii_case("en") { "fr" } else { "en" }), 1 => lit_lang(l, &format!("{}-x", tag.as_str())), _ => lit_dt(l, &format!("{XSD}string")) },
+        SimpleTerm::LiteralDatatype(l, d) => match r.below(3) { 0 => lit_dt(l, &format!("{}x", d.as_str())), 1 => lit_dt(&format!("{l}x"), d.as_str()), _ => lit_lang(l, "en") },
+        SimpleTerm::Iri(i) => iri(&format!("{}x", i.as_str())),
+        SimpleTerm::Variable(v) => var(&format!("{}x", v.as_str())),
+        _ => t.clone(),
+    }
+}
+/// replace the k-th ground atom (in left-to-right order, at any depth) by a near variant
+fn mutate_ground(t: &ST, k: &mut usize, r: &mut Rng) -> ST {
+    match t {
+        SimpleTerm::BlankNode(_) => t.clone(),
+        SimpleTerm::Triple(tr) => triple(mutate_ground(&tr[0], k, r), mutate_ground(&tr[1], k, r), mutate_ground(&tr[2], k, r)),
+        _ => { if *k == 0 { *k = usize::MAX; near_ground(t, r) } else { if *k != usize::MAX { *k -= 1; } t.clone() } }
     }
 }
 fn gen_dataset(r: &mut Rng) -> Vec<Q> {
     let nb = r.range(1, 5);
-    match r.below(7) {
+    match r.below(9) {
+        7 | 8 => { // statements sharing one quoted-triple skeleton, with DISTINCT blank nodes at one position of it (subject,
+            // predicate or object, possibly one level deeper), and differing in a LATER position of the statement: a
+            // blank-blind sort must order them by that later position whatever the labels are
+            let n = r.range(2, 3); let j = r.below(3); let deep = r.chance(1, 3); let in_object = r.chance(1, 3);
+            let sk = |b: ST, r: &mut Rng| -> ST { let mut parts = [iri("http://e/a"), iri("http://e/p"), lit_lang("x", "en")]; parts[j] = b; let t = triple(parts[0].clone(), parts[1].clone(), parts[2].clone()); if deep { let _ = r; triple(t, iri("http://e/q"), iri("http://e/b")) } else { t } };
+            let mut v: Vec<Q> = vec![];
+            for i in 0..n {
+                let qt = sk(bnode(&format!("b{i}")), r); let later = iri(&format!("http://e/{}", ["a", "b", "c"][i]));
+                if in_object { v.push(([iri("http://e/s"), iri("http://e/p"), qt], Some(later))); } else { v.push(([qt, iri("http://e/p"), later], None)); }
+            }
+            if r.chance(1, 2) { v.push(([bnode("b0"), iri("http://e/q"), bnode("b1")], None)); }
+            v }
         0 => { // cycle
             let p = iri("http://e/p"); (0..nb).map(|i| ([bnode(&format!("b{i}")), p.clone(), bnode(&format!("b{}", (i + 1) % nb))], None)).collect() }
         1 => { // clique with blank graph name
@@ -41,7 +74,7 @@ fn gen_dataset(r: &mut Rng) -> Vec<Q> {
         3 => { // quoted triples with blank nodes
             (0..r.range(1, 4)).map(|_| ([triple(bnode(&format!("b{}", r.below(nb))), iri("http://e/p"), gen_term(r, nb, 1)), iri("http://e/q"), gen_term(r, nb, 0)], if r.chance(1, 3) { Some(bnode(&format!("b{}", r.below(nb)))) } else { None })).collect() }
         5 => { let mut v: Vec<Q> = (0..r.range(1, 4)).map(|_| ([gen_ground(r), iri(&format!("http://e/{}", r.ps(&["p", "q"]))), gen_ground(r)], if r.chance(1, 2) { Some(iri("http://e/g")) } else { None })).collect(); v.push(([bnode("b0"), iri("http://e/p"), bnode("b1")], None)); v }
-        _ => (0..r.range(1, 7)).map(|_| ([gen_term(r, nb, 1), iri(&format!("http://e/{}", r.ps(&["p", "q"]))), gen_term(r, nb, 2)], match r.below(4) { 0 => Some(gen_term(r, nb, 0)), _ => None })).collect(),
+        _ => (0..r.range(1, 7)).map(|_| ([gen_term(r, nb, 1), if r.chance(1, 5) { gen_term(r, nb, 1) } else { iri(&format!("http://e/{}", r.ps(&["p", "q"]))) }, gen_term(r, nb, 2)], match r.below(4) { 0 => Some(gen_term(r, nb, 0)), _ => None })).collect(),
     }
 }
 fn rename_t(t: &ST, f: &dyn Fn(&str) -> String) -> ST {
@@ -81,7 +114,8 @@ non-trivial = at least 2 blank nodes and the pair passes the size and blanked-st
     for idx in range {
         let mut r = base.fork(idx as u64);
         let d1 = dedup(&gen_dataset(&mut r));
-        let variant = r.below(6);
+        let mut d1 = d1;
+        let variant = r.below(8);
         let suffix = format!("x{}", r.below(3));
         let mut d2: Vec<Q> = d1.iter().map(|q| rename_q(q, &|b| format!("{b}{suffix}"))).collect();
         // a genuine permutation of labels within the same label set, half of the time
@@ -91,7 +125,10 @@ non-trivial = at least 2 blank nodes and the pair passes the size and blanked-st
             0 | 1 => {}
             2 => { // one ground difference: a term in a random position, or the graph name (default <-> named)
                 if !d2.is_empty() { let k = r.below(d2.len()); let q = &mut d2[k];
-                    match r.below(5) {
+                    let total: usize = q.0.iter().map(n_ground).sum::<usize>() + q.1.as_ref().map_or(0, n_ground);
+                    match r.below(8) {
+                        // a minimal change of one ground atom anywhere in the statement (any position, any depth)
+                        5..=7 if total > 0 => { let mut k = r.below(total); for i in 0..3 { q.0[i] = mutate_ground(&q.0[i].clone(), &mut k, &mut r); } if let Some(g) = q.1.clone() { q.1 = Some(mutate_ground(&g, &mut k, &mut r)); } }
                         0 => q.0[1] = iri("http://e/CHANGED"),
                         1 => q.0[0] = iri("http://e/CHANGED"),
                         2 => q.0[2] = lit_dt("CHANGED", &format!("{XSD}string")),
@@ -99,12 +136,21 @@ non-trivial = at least 2 blank nodes and the pair passes the size and blanked-st
                     }
                     expect_true = false; } }
             3 => { d2.push(([iri("http://e/extra"), iri("http://e/p"), bnode("fresh")], None)); expect_true = false; }
+            6 | 7 => { // a minimal change of one ground atom in a statement that mentions NO blank node (nothing but the
+                // pairwise comparison of the sorted statements can see it); such a statement is added if there is none
+                let blank_free = |q: &Q| { let mut s = BTreeSet::new(); for t in q.0.iter() { bnodes(t, &mut s) } if let Some(g) = &q.1 { bnodes(g, &mut s) } s.is_empty() };
+                if !d2.iter().any(|q| blank_free(q)) { let q: Q = ([gen_ground(&mut r), iri("http://e/p"), if r.chance(1, 2) { lit_lang("x", "en") } else { triple(gen_ground(&mut r), iri("http://e/p"), lit_lang("y", "fr")) }], if r.chance(1, 3) { Some(iri("http://e/g")) } else { None }); d1.push(q.clone()); d2.push(q); }
+                let ks: Vec<usize> = (0..d2.len()).filter(|k| blank_free(&d2[*k])).collect(); let k = *r.pick(&ks); let q = &mut d2[k];
+                let total: usize = q.0.iter().map(n_ground).sum::<usize>() + q.1.as_ref().map_or(0, n_ground);
+                let mut at = r.below(total); for i in 0..3 { q.0[i] = mutate_ground(&q.0[i].clone(), &mut at, &mut r); } if let Some(g) = q.1.clone() { q.1 = Some(mutate_ground(&g, &mut at, &mut r)); }
+                expect_true = false; }
             4 => { // merge two blank nodes
                 let mut s = BTreeSet::new(); for q in &d2 { for t in q.0.iter() { bnodes(t, &mut s) } if let Some(g) = &q.1 { bnodes(g, &mut s) } }
                 let l: Vec<String> = s.into_iter().collect();
                 if l.len() >= 2 { let (x, y) = (l[0].clone(), l[1].clone()); d2 = dedup(&d2.iter().map(|q| rename_q(q, &|b| if b == y { x.clone() } else { b.to_string() })).collect::<Vec<_>>()); expect_true = false; } }
-            _ => { // split: one occurrence of a blank node becomes a fresh node
+            5 => { // split: one occurrence of a blank node becomes a fresh node
                 if let Some(q) = d2.iter_mut().find(|q| q.0[0].is_blank_node()) { q.0[0] = bnode("splitoff"); expect_true = false; } }
+            _ => {}
         }
         d2 = dedup(&d2);
         shuffle(&mut d2, &mut r);
@@ -124,7 +170,7 @@ non-trivial = at least 2 blank nodes and the pair passes the size and blanked-st
         if must_be_false && ans { sum.oracle_failures.push((idx.to_string(), format!("answered true although the datasets differ in size, blank node count or a blanked statement; {text}"))); }
         let nontrivial = b1.len() >= 2 && !must_be_false;
         if seen.insert(text.clone()) && nontrivial { sum.distinct_nontrivial += 1; }
-        sum.bump(&format!("variant:{}", ["copy", "copy", "ground-term-changed", "statement-added", "blank-merged", "blank-split"][variant])); sum.bump(&format!("answer:{ans}")); sum.bump(&format!("containers:{kind}"));
+        sum.bump(&format!("variant:{}", ["copy", "copy", "ground-term-changed", "statement-added", "blank-merged", "blank-split", "ground-atom-changed-in-blank-free-statement", "ground-atom-changed-in-blank-free-statement"][variant])); sum.bump(&format!("answer:{ans}")); sum.bump(&format!("containers:{kind}"));
         if sum.samples.len() < 4 && nontrivial { sum.samples.push(format!("case {idx}: {text} => {ans}")); }
         sum.evaluations += 1;
         cases.push((idx, format!("iso_ok {} {} {}", coq_list(d1.iter().map(c_quad)), coq_list(d2.iter().map(c_quad)), coq_bool(ans))));
